@@ -47,6 +47,13 @@ def selfies_codes():
     return codes
 
 
+class HangAbort(BaseException):
+    pass
+
+
+SEGMENT_TIMEOUT = 30.0
+
+
 class Exec:
     """one controlled execution of `jobs` (callables), one thread each"""
 
@@ -60,11 +67,14 @@ class Exec:
         self.budget = [0] * self.n          # events still allowed before parking (None = run to completion)
         self.done = [False] * self.n
         self.res = [None] * self.n
+        self.abort = False
 
     def on_event(self):
         tid = getattr(self.tl, "tid", None)
         if tid is None:
             return
+        if self.abort:
+            raise HangAbort()       # unwinds a thread that did not finish within the per-segment watchdog
         self.steps[tid] += 1
         b = self.budget[tid]
         if b is None:
@@ -100,15 +110,15 @@ class Exec:
                 continue
             self.budget[tid] = k
             self.sem[tid].release()
-            if not self.main.acquire(timeout=120):
-                raise RuntimeError("HARNESS: controlled thread %d did not yield within 120 s" % tid)
+            if not self.main.acquire(timeout=SEGMENT_TIMEOUT):
+                return self._hang(ths, tid, trace)
             trace.append((tid, self.steps[tid], self.done[tid]))
         for tid in (tail_order or range(self.n)):
             if not self.done[tid]:
                 self.budget[tid] = None
                 self.sem[tid].release()
-                if not self.main.acquire(timeout=120):
-                    raise RuntimeError("HARNESS: controlled thread %d did not finish within 120 s" % tid)
+                if not self.main.acquire(timeout=SEGMENT_TIMEOUT):
+                    return self._hang(ths, tid, trace)
         for t in ths:
             t.join(120)
         return self.res, tuple(self.steps), tuple(trace)
@@ -144,6 +154,22 @@ def uninstall():
         mon.set_local_events(TOOL, c, 0)
     mon.free_tool_id(TOOL)
     _INSTALLED[0] = None
+
+
+def _hang(self, ths, tid, trace):
+    """a controlled thread neither finished nor reached its next scheduling point: abort every thread (the monitoring
+    callback raises inside them) and report the execution as hung"""
+    self.abort = True
+    for i in range(self.n):
+        self.sem[i].release()
+    for t in ths:
+        t.join(SEGMENT_TIMEOUT)
+    res = list(self.res)
+    res[tid] = ("hang", "thread %d did not finish or yield within %.0f s" % (tid, SEGMENT_TIMEOUT))
+    return res, tuple(self.steps), tuple(trace) + (("hang", tid),)
+
+
+Exec._hang = _hang
 
 
 def execute(jobs, segments, reset, tail_order=None):
